@@ -2452,6 +2452,10 @@ class VirtualMachine:
       elif next_op.__class__ in stop_classes:
         break
 
+    # LIST_EXTEND only adds to the list: keep what it already contains (e.g. `x`
+    # in `[x, *ys]`).
+    for target_value in target.data:
+      target_value.rebind_instance_type_parameter(state.node, abstract_utils.T)
     update_elements = vm_utils.unpack_iterable(state.node, update, self.ctx)
     if not keep_splats and any(
         abstract_utils.is_var_splat(x) for x in update_elements
@@ -2519,6 +2523,9 @@ class VirtualMachine:
     except abstract_utils.ConversionError:
       return pytd_update(state)
     for abstract_target_value in target.data:
+      # DICT_UPDATE only adds to the dictionary: keep what it already contains.
+      for param in (abstract_utils.K, abstract_utils.V):
+        abstract_target_value.rebind_instance_type_parameter(state.node, param)
       for k, v in update_value.items():
         abstract_target_value.set_str_item(state.node, k, v)
     return state
